@@ -40,6 +40,7 @@ type SpecEnv struct {
 type quantRec struct {
 	text, bound, body string
 	exists            bool
+	sort              string // sort of the bound variable ("" = Int)
 }
 
 func (env *SpecEnv) flipped(to int) *SpecEnv {
@@ -763,8 +764,13 @@ func (fx *FuncExec) evalSpecCall(env *SpecEnv, x *ast.CallExpr) Val {
 		fx.em.n++
 		e2 := env.with(v, Val{T: types.Typ[types.String], Sort: SStr, S: bn})
 		e2.inQuant = true
+		wasIn := env.inQuant
 		body := fx.evalSpec(e2, x.Args[1])
-		return bv(fmt.Sprintf("(forall ((%s Str)) %s)", bn, body.S))
+		text := fmt.Sprintf("(forall ((%s Str)) %s)", bn, body.S)
+		if env.pol == 1 && env.rec != nil && !wasIn {
+			*env.rec = append(*env.rec, quantRec{text: text, bound: bn, body: body.S, sort: "Str"})
+		}
+		return bv(text)
 	case "forallkey":
 		// forallkey(k, m, P): P holds for every key k present in map m
 		v := x.Args[0].(*ast.Ident).Name
